@@ -43,6 +43,7 @@ func init() {
 		symPath + ".Symbolic":   func(p *Path, _ *frame, _ *ssa.Function, _ []Value) Value { return p.st().True },
 		symPath + ".IsConcrete": symIsConcrete,
 		symPath + ".Fork":       symFork,
+		symPath + ".Param":      symParam,
 
 		"(*strings.Builder).WriteString": sbWriteString,
 		"(*strings.Builder).WriteByte":   sbWriteByte,
@@ -220,6 +221,14 @@ func symConcrete(p *Path, _ *frame, _ *ssa.Function, args []Value) Value {
 func symIsConcrete(p *Path, _ *frame, _ *ssa.Function, args []Value) Value {
 	t := p.simplify(args[0].(*Term))
 	return p.st().Bool(t.op == OpConst)
+}
+
+func symParam(p *Path, _ *frame, _ *ssa.Function, args []Value) Value {
+	name := argStr(args[0])
+	if v, ok := p.w.eng.params[name]; ok {
+		return p.st().Const(64, uint64(v))
+	}
+	return args[1]
 }
 
 // Fork(b): decide b by forking (same as `if b`), returns the concrete bool.
